@@ -1406,6 +1406,12 @@ const rulePOSTWRITEText = "state follows the write: in the Repair methods of the
 func rulePOSTWRITE(w *World, r *Report) {
 	r.rule("POSTWRITE", rulePOSTWRITEText)
 	nLoops, nStores := 0, 0
+	type okEdge struct {
+		b *ssa.BasicBlock
+		i int
+	}
+	okEdges := map[*ssa.Function][]okEdge{}
+	var okFns []*ssa.Function
 	for _, ws := range w.repairWriteSites() {
 		fn := ws.Fn
 		name := shortName(fn)
@@ -1442,6 +1448,10 @@ func rulePOSTWRITE(w *World, r *Report) {
 					r.unk("POSTWRITE", name+":write", w.ipos(c), "the err==nil edge of WriteFile was not found")
 					continue
 				}
+				if okEdges[fn] == nil {
+					okFns = append(okFns, fn)
+				}
+				okEdges[fn] = append(okEdges[fn], okEdge{okFrom, okIdx})
 				var blocks []*ssa.BasicBlock
 				for b := range l.body {
 					blocks = append(blocks, b)
@@ -1467,6 +1477,58 @@ func rulePOSTWRITE(w *World, r *Report) {
 							r.bad("POSTWRITE", key, w.ipos(st), fmt.Sprintf("the decoder's %s is updated inside the write loop on a path where the write has not succeeded (yet): after a failed write the file still counts as restored", p.Path))
 						}
 					}
+				}
+			}
+		}
+	}
+	// damage flags: a constant stored into a bool field of one of the decoder's per-file records (the
+	// element types of the receiver's slices), anywhere in the Repair method, is subject to the same
+	// condition - also when the record is a local copy that is stored back later
+	for _, fn := range okFns {
+		recTypes := map[string]bool{}
+		if st, ok := derefType(fn.Params[0].Type()).Underlying().(*types.Struct); ok {
+			for i := 0; i < st.NumFields(); i++ {
+				if sl, ok := st.Field(i).Type().Underlying().(*types.Slice); ok {
+					if nm := namedTypeName(sl.Elem()); nm != "" {
+						if _, ok := sl.Elem().Underlying().(*types.Struct); ok {
+							recTypes[nm] = true
+						}
+					}
+				}
+			}
+		}
+		k := 0
+		for _, b := range fn.Blocks {
+			for _, in := range b.Instrs {
+				st, ok := in.(*ssa.Store)
+				if !ok {
+					continue
+				}
+				fa, ok := st.Addr.(*ssa.FieldAddr)
+				if !ok {
+					continue
+				}
+				if _, isConst := st.Val.(*ssa.Const); !isConst {
+					continue
+				}
+				if bt, ok := st.Val.Type().Underlying().(*types.Basic); !ok || bt.Kind() != types.Bool {
+					continue
+				}
+				if !recTypes[namedTypeName(derefType(fa.X.Type()))] {
+					continue
+				}
+				key := fmt.Sprintf("%s:flag-store#%d", shortName(fn), k)
+				k++
+				dom := false
+				for _, e := range okEdges[fn] {
+					if edgeDominates(e.b, e.i, b) {
+						dom = true
+					}
+				}
+				if dom {
+					r.ok("POSTWRITE", key, w.ipos(st), "a flag of a per-file record is set only after WriteFile returned nil")
+				} else {
+					r.bad("POSTWRITE", key, w.ipos(st), "a flag of a per-file record of the decoder is overwritten with a constant on a path where the file has not been written successfully: after a failed write (or before any write) the record no longer says the file is damaged, so counts taken afterwards and a second Repair on the same decoder skip it")
 				}
 			}
 		}
@@ -1716,6 +1778,88 @@ func ruleSOLVE(w *World, r *Report) {
 		}
 	}
 	r.floor("SOLVE", "returns of makeReconstructionMatrix", n, 1)
+}
+
+// SOLVE, second clause: what ReconstructData stores into the data rows is what applyMatrix computed
+// with the matrix makeReconstructionMatrix returned
+func ruleSOLVEStores(w *World, r *Report) {
+	fn := w.Fn("(rsec16.Coder).ReconstructData")
+	if fn == nil || len(fn.Params) < 2 {
+		r.unk("SOLVE", "(rsec16.Coder).ReconstructData", "", "function not found")
+		return
+	}
+	data := ssa.Value(fn.Params[1])
+	solved := func(a ssa.Value) bool {
+		if ex, ok := a.(*ssa.Extract); ok && ex.Index == 0 {
+			if mc, ok := ex.Tuple.(*ssa.Call); ok {
+				if f := mc.Call.StaticCallee(); f != nil && f.Name() == "makeReconstructionMatrix" {
+					return true
+				}
+			}
+		}
+		return false
+	}
+	fromApply := func(s ssa.Value) bool {
+		// the rows are the result of a helper of the package that is given the solved matrix
+		if sc, ok := s.(*ssa.Call); ok {
+			if g := sc.Call.StaticCallee(); g != nil && g.Pkg != nil && strings.HasSuffix(g.Pkg.Pkg.Path(), "/rsec16") {
+				for _, a := range sc.Call.Args {
+					if solved(a) {
+						return true
+					}
+				}
+			}
+		}
+		for _, c := range callInstrs(fn) {
+			g := c.Common().StaticCallee()
+			if g == nil || g.Pkg == nil || !strings.HasSuffix(g.Pkg.Pkg.Path(), "/rsec16") {
+				continue
+			}
+			args := c.Common().Args
+			has := false
+			for _, a := range args {
+				if a == s {
+					has = true
+				}
+			}
+			if !has {
+				continue
+			}
+			for _, a := range args {
+				if solved(a) {
+					return true
+				}
+			}
+		}
+		return false
+	}
+	n := 0
+	for _, b := range fn.Blocks {
+		for _, in := range b.Instrs {
+			st, ok := in.(*ssa.Store)
+			if !ok {
+				continue
+			}
+			ia, ok := st.Addr.(*ssa.IndexAddr)
+			if !ok || ia.X != data {
+				continue
+			}
+			key := fmt.Sprintf("%s:row-store#%d", shortName(fn), n)
+			n++
+			good := false
+			if ld, ok := st.Val.(*ssa.UnOp); ok && ld.Op == token.MUL {
+				if sa, ok := ld.X.(*ssa.IndexAddr); ok && fromApply(sa.X) {
+					good = true
+				}
+			}
+			if good {
+				r.ok("SOLVE", key, w.ipos(st), "the row stored is a row of the output of the matrix application (applyMatrix or its inlined form) that is given the solved reconstruction matrix")
+			} else {
+				r.bad("SOLVE", key, w.ipos(st), "a data row is filled with something other than a row of the slice handed, together with the matrix makeReconstructionMatrix returned, to the matrix application: this case is reconstructed by hand, outside the solver that accounts for which recovery rows are present")
+			}
+		}
+	}
+	r.floor("SOLVE", "row stores in ReconstructData", n, 1)
 }
 
 // ---------------------------------------------------------------------------
@@ -2184,4 +2328,11 @@ func lockstepPair(c *ssa.Call) (ssa.Value, ssa.Value, bool) {
 		return nil, nil, false
 	}
 	return a, b, true
+}
+
+func derefType(t types.Type) types.Type {
+	if p, ok := t.Underlying().(*types.Pointer); ok {
+		return p.Elem()
+	}
+	return t
 }
